@@ -17,6 +17,15 @@ THEOREMS = [
     "GoaktVerif.C09.tree_holds",
     "GoaktVerif.C09.counter_eq",
     "GoaktVerif.C09.watchers_registered",
+    "GoaktVerif.Model.C09.fi_step",
+    "GoaktVerif.Model.C09.fi_fold",
+    "GoaktVerif.Model.C09.shutdown_post",
+    "GoaktVerif.Model.C09.deleteNode_unregisters",
+    "GoaktVerif.Model.C09.drain_unregisters",
+    "GoaktVerif.C09.subtree_offline",
+    "GoaktVerif.C09.stop_holds",
+    "GoaktVerif.C09.hyp_of_hypB",
+    "GoaktVerif.C09.C09_holds",
 ]
 INPKG = ["actor/zz_verif_c09.go", "actor/zz_verif_c09sys.go"]
 MANIFEST = {
@@ -29,13 +38,22 @@ MANIFEST = {
                    "descendants entries, cleared parent objects, last-writer-wins names index) and is tied to the code by a "
                    "differential run of the REAL tree (stub PIDs, in-package) after every op of random scripts and of all "
                    "rooted trees with <= 5 nodes. The stop path (Shutdown/doStop/freeChildren/freeWatchers + death watch) is "
-                   "an executable model over the same tree, tied to a REAL started actor system by scripted scenarios "
+                   "an executable model over the same tree; stop_holds (via shutdown_post: induction on the recursion "
+                   "with a loop invariant for freeChildren) proves for EVERY acyclic tree, actor state and depth: every "
+                   "actor reachable from p through running actors is offline when Shutdown(p) returns and its PostStop "
+                   "ran; PostStop of every running child is recorded before its parent's (children first along every "
+                   "chain); nobody is started; every actor is STILL registered at return (the code's real guarantee) and "
+                   "unregistered once death watch has handled the Terminated it was sent (deleteNode_unregisters, "
+                   "drain_unregisters). The stop model is tied to a REAL started actor system by scripted scenarios "
                    "(Shutdown, PoisonPill, parent.Stop, Kill, Restart, system Stop on trees of depth <= 3, width <= 3): "
                    "same actors stopped, same Terminated counts, same registered set once death watch is quiescent; the "
                    "oracle checks children-first PostStop order, exactly-once, nothing running at return, nothing "
                    "registered or resolvable once death watch has handled its Terminated messages."),
-    "level_note": ("Partial: theorems cover the tree half (all op sequences); the stop ORDER is model + differential + oracle "
-                   "on generated trees, its theorems are still being added. 'Not resolvable by name when the stop returns' "
+    "level_note": ("Stop theorems are about runs of the model that return (fuel-explicit recursion; termination on acyclic "
+                   "trees is not proved, the driver uses fuel > number of nodes) and assume the live descendants graph is "
+                   "acyclic (rank witness; decidable check hypB; the real usage builds trees by spawn only). That death watch "
+                   "is sent a Terminated for each stopped actor is checked by the scenario differential (registered set), "
+                   "not proved. 'Not resolvable by name when the stop returns' "
                    "is NOT what the code guarantees: reset() clears the stopping flag, so ActorOf/ActorExists resolve the "
                    "stopped PID until death watch (asynchronously) deletes the node; the check asserts the eventual form "
                    "(after death watch is quiescent) and reports the window as diagnostics (res=/reg=). Left out of the "
